@@ -7,7 +7,7 @@ Canonical element vocabulary inside a fold over a successor list:
     ('sf', X, field)  state_list[X].field            (field of the successor state X)
 """
 from .loader import AnalysisError
-from .symx import (SymX, classify, show, simp, subst, mentions, C, TRUE, FALSE, UNBOUND, is_const, key)
+from .symx import (SymX, classify, show, simp, subst, mentions, C, TRUE, FALSE, UNBOUND, is_const, key, deep_simp)
 
 SELF_NEXT = ("attr", ("v", "self"), "next_states")
 
@@ -171,7 +171,9 @@ class Kernel:
             if x == ("idx", ("e",), C(1)):
                 return ("t",)
             return None
-        return subst(r, g)
+        # an intermediate element that carries the successor *object* (label, state_list[target]): fields read from it are the
+        # successor's fields
+        return self.canon_top(deep_simp(subst(r, g)))
 
     def listexpr(self, t, depth=0):
         """(base source, filter, element, whole) of a list built from a base list by comprehensions / append-loops,
@@ -230,6 +232,26 @@ class Kernel:
     def kfold(self, t):
         """Canonical fold behind a term: ('res', L, v), ('compr', L) or sum/max/min over a list expression."""
         if not isinstance(t, tuple):
+            return None
+        if t[0] == "ite" and len(t) == 4 and ("list", ()) in (t[2], t[3]):
+            # `if not xs: return []` in front of a comprehension over xs: the comprehension is [] for an empty xs anyway
+            cond, body = (t[1], t[2]) if t[3] == ("list", ()) else (simp(("not", t[1])), t[3])
+            if cond[0] == "truthy":
+                le_s, le_b = self.listexpr(cond[1]), self.listexpr(body)
+                base_s = le_s[0] if le_s is not None else self.canon_top(cond[1])
+                flt_s = le_s[1] if le_s is not None else TRUE
+                if le_b is not None and le_b[0] == base_s and flt_s == TRUE:
+                    return self.kfold(body)
+        if t[0] == "attr" and t[1][0] == "res" and t[1][1] in self.sx.loops:
+            # a field of the successor *object* that a search loop selected: `followed = <arg-max successor>; followed.F`
+            ko = self.kfold(t[1])
+            if ko is not None and ko.kind == "ARG" and ko.term == ("idx", ("v", self.slist), ("t",)):
+                import copy as _copy
+                k2 = _copy.copy(ko)
+                k2.term = ("sf", ("t",), t[2])
+                if ko.of is not None and ko.of.term == k2.term:
+                    return ko.of          # the key of the selected successor is the extremum itself (whatever the tie rule)
+                return k2
             return None
         if t[0] == "res":
             lid, v = t[1], t[2]
@@ -291,10 +313,19 @@ class Kernel:
             if extra:
                 if len(extra) != 1:
                     return None
-                init = self.canon_top(extra[0])
-                fe = None
+                init = self._seed_init(extra[0], le[2], le[0])
             return KFold(kind="EXT", sense=t[1], strict=None, init=init, **base)
         return None
+
+    def _seed_init(self, seed, key_term, base):
+        """Canonical start value of min/max([seed] + keys): ('first',) when the seed is the key evaluated at the first element of
+        the base list, else the seed in canonical form."""
+        init = self.canon_top(seed)
+        e0 = simp(("idx", base, C(0)))
+        at_first = deep_simp(subst(key_term, lambda x: e0 if x == ("e",) else (simp(("idx", e0, C(0))) if x == ("p",) else (simp(("idx", e0, C(1))) if x == ("t",) else None))))
+        if init == self.canon_top(at_first) or init == at_first:
+            return ("first",)
+        return init
 
     def _argset_by_filter(self, loop, flt):
         """`[label for ... in S if key == max(keys)]` (directly, or zipped with the key list; the extremum may be taken
@@ -342,22 +373,30 @@ class Kernel:
         else:
             le = self.listexpr(src_t)
             base = le[0] if le is not None and le[1] == TRUE and le[2] == ("e",) else self.canon_top(src_t)
+            cur_c = self.canon(cur, loop.id)
+            label_c = self.canon(loop.elt, loop.id)
+            if le is not None and le[1] == TRUE and le[2] != ("e",) and le[3]:
+                # the comprehension runs over a list of (label, key) pairs computed from the successor list: read both in
+                # terms of the successor itself
+                base = le[0]
+                cur_c = deep_simp(self._rebase(cur_c, le[2]))
+                label_c = deep_simp(self._rebase(label_c, le[2]))
             key_mismatch = None
-            if base == kle[0] and self.canon(cur, loop.id) != kle[2]:
-                a_, b_ = kle[2], self.canon(cur, loop.id)
+            if base == kle[0] and cur_c != kle[2]:
+                a_, b_ = kle[2], cur_c
                 # same shape, another field of the successor: the optimum is taken over one quantity, membership is judged on another
                 fa = [x for x in _walk(a_) if x[0] == "sf"]
                 fb = [x for x in _walk(b_) if x[0] == "sf"]
                 if len(fa) == 1 and len(fb) == 1 and fa[0][1] == fb[0][1] and fa[0][2] != fb[0][2] \
                         and subst(a_, lambda x: fb[0] if x == fa[0] else None) == b_:
                     key_mismatch = (a_, b_)
-            if base != kle[0] or (self.canon(cur, loop.id) != kle[2] and key_mismatch is None):
+            if base != kle[0] or (cur_c != kle[2] and key_mismatch is None):
                 return None
-            label = self.canon(loop.elt, loop.id)
+            label = label_c
         kws = dict(ext[3])
         init = self.canon_top(kws["default"]) if "default" in kws else None
         if extra:
-            init = self.canon_top(extra[0])
+            init = self._seed_init(extra[0], kle[2], base)
         of = KFold(kind="EXT", sense=ext[1], strict=True, init=init, term=kle[2], source=base, whole=kle[3] and loop.whole, loop=None,
                    via="builtin " + ext[1])
         kf = KFold(kind="ARGSET", of=of, label=label, ties=True, init=("list", ()), source=base, filter=TRUE,
@@ -396,7 +435,7 @@ class Kernel:
             k.first_filter = k.filter
             return k
         mapped = self.listexpr(loop.source)
-        if mapped is not None and mapped[2] != ("e",) and fo.kind in ("SUM", "EXT"):
+        if mapped is not None and mapped[2] != ("e",) and fo.kind in ("SUM", "EXT", "ARG", "ARGSET"):
             # a fold over a list of computed values [g(e) for e in S if F]: rewritten as the fold of g over S (filter F)
             base, F0, E0, w0 = mapped
             canon0 = self.canon
@@ -439,6 +478,9 @@ class Kernel:
                 k.first_filter = self.first_filter(init, loop)
             else:
                 k.init = self.canon_top(init) if init is not None else None
+                if init is not None and isinstance(k.source, tuple) and k.term is not None and self._seed_init(init, k.term, k.source) == ("first",):
+                    k.init = ("first",)             # seeded with the key at the first element, written out (mapped source)
+                    k.first_filter = TRUE
         elif fo.kind in ("SUM", "COLLECT"):
             k.init = self.canon_top(init)
         elif fo.kind == "ARG":
